@@ -8,7 +8,11 @@ from vx.run import run_template
 import concurrent.futures as cf
 ROOT = os.path.dirname(os.path.dirname(os.path.abspath(__file__)))
 tpls = sys.argv[1:] or sorted(glob.glob(os.path.join(ROOT, 'units', '*.rs')))
-tags = ['__S1', '__S2', '__S3', '__C10', '__C01']
+from vx.assemble import template_props
+tags_extra = ['__S1', '__S2', '__S3']
+def tags_for(t):
+    # the file names the driver really uses are <template>__<property>[r1|r2]: survey exactly those, plus three neutral ones
+    return ['__' + p for p in sorted(template_props(t))] + tags_extra
 def one(a):
     t, tag = a
     try:
@@ -18,7 +22,7 @@ def one(a):
     return t, tag, r['functions'], None
 worst = {}
 with cf.ThreadPoolExecutor(max_workers=8) as ex:
-    for t, tag, fr, err in ex.map(one, [(t, g) for t in tpls for g in tags]):
+    for t, tag, fr, err in ex.map(one, [(t, g) for t in tpls for g in tags_for(t)]):
         if err:
             print('ERR', t, tag, err[:200]); continue
         for k, v in fr.items():
